@@ -5,6 +5,7 @@
 package netstacks
 
 import (
+	"context"
 	"crypto/ed25519"
 	"fmt"
 
@@ -46,6 +47,10 @@ func Build(kind string, n int) (*stacks.Stack, error) {
 			sw[i], addrs[i] = s, s.LocalAddrs()[0]
 		}
 		st.Nodes = stacks.WrapSwarms(sw, addrs)
+		st.Extra["lookup"] = func(ctx context.Context, from, to int) error {
+			_, err := sw[from].(*sshswarm.Swarm).LookupPublicKey(ctx, addrs[to])
+			return err
+		}
 	case "quic-udp":
 		sw := make([]p2p.Swarm[quicswarm.Addr[udpswarm.Addr]], n)
 		addrs := make([]quicswarm.Addr[udpswarm.Addr], n)
@@ -57,6 +62,10 @@ func Build(kind string, n int) (*stacks.Stack, error) {
 			sw[i], addrs[i] = s, s.LocalAddrs()[0]
 		}
 		st.Nodes = stacks.WrapSwarms(sw, addrs)
+		st.Extra["lookup"] = func(ctx context.Context, from, to int) error {
+			_, err := sw[from].(*quicswarm.Swarm[udpswarm.Addr]).LookupPublicKey(ctx, addrs[to])
+			return err
+		}
 	case "quic-mem":
 		r := memswarm.NewRealm(memswarm.WithQueueLen(1024))
 		sw := make([]p2p.Swarm[quicswarm.Addr[memswarm.Addr]], n)
@@ -69,6 +78,10 @@ func Build(kind string, n int) (*stacks.Stack, error) {
 			sw[i], addrs[i] = s, s.LocalAddrs()[0]
 		}
 		st.Nodes = stacks.WrapSwarms(sw, addrs)
+		st.Extra["lookup"] = func(ctx context.Context, from, to int) error {
+			_, err := sw[from].(*quicswarm.Swarm[memswarm.Addr]).LookupPublicKey(ctx, addrs[to])
+			return err
+		}
 	default:
 		return nil, fmt.Errorf("netstacks: unknown kind %q", kind)
 	}
